@@ -59,7 +59,7 @@ func VerifC09_total() {
 	}
 	nd := 2
 	if vfTier() == 1 {
-		nd = len(vfDecoNames)
+		nd = 3
 	}
 	vfRenderAll(t, nd, true)
 	vfAssert(true, "no-panic")
